@@ -26,7 +26,7 @@ def run(tier, seed):
     # larger seeded portfolios: every step of the reported dispatch must be a balanced joint move of the reference model
     common.code_to_spec(chk, fam.fam_random(seed, n=12 if not th else 60, T=12 if not th else 24), lambda c: R.Real(c), tag='random', chk_fields=(), solvers=('SCIPY',))
     # (c) all asset types, all routes: light abstraction
-    common.zoo_portfolio_traces(chk, seeds=range(seed, seed + (2 if not th else 8)), clause_filter=is_c01, clauses=('balance',))
+    common.zoo_portfolio_traces(chk, seeds=range(seed, seed + (2 if not th else 8)), clause_filter=is_c01, clauses=('balance',), routes=('mono', 'split', 'io', 'robust', 'inner'))
     if th:
         common.harvested_test_suite(chk, ('balance',), is_c01)
     chk.assumptions += ['light abstraction (flows and attachment only) for asset types outside the reference model']
